@@ -59,7 +59,7 @@ func (rl *RangeLoop) SetVal(val any, ins inspector.Inspector) {
 func (rl *RangeLoop) Iterate() inspector.LoopCtl {
 	rl.c++
 	if rl.cntr > 0 && len(rl.node.loopSep) > 0 {
-		if _, rl.err = rl.w.Write(rl.node.loopSep); rl.err != nil {
+		if rl.err = rl.ctx.writeBound(rl.w, rl.node.loopSep); rl.err != nil {
 			return inspector.LoopCtlBrk
 		}
 	}
